@@ -94,6 +94,146 @@ Theorem C10_unique_uses_every_target :
 Proof. exact extend_complete. Qed.
 Print Assumptions C10_unique_uses_every_target.
 
+(* ---------------------------------------------------------------- several call sites (round 3)
+   Model: RowHistory.v, "several call sites": the table of call sites kept by
+   Interpreter.get_contextual_state (one entry per `random_reference:` written in the recipe:
+   parent row + its own RandomReferenceContext), the `scope` argument, one stream of random draws
+   shared by every consumer.  s_old st ++ s_cur st = the numbers a call site has drawn under
+   its current parent row, in order (ghost fields maintained by mstep_uref).                 *)
+Open Scope list_scope.
+
+(* scope: the default scope is the interval of the first part of this file; the global scope
+   always starts at the first row *)
+Theorem C10_scope_argument :
+  (forall h name, ref_range_sc h name false = ref_range h name) /\
+  (forall h name nick table lo hi, ref_range_sc h name true = Ok (nick, table, lo, hi) -> lo = 1).
+Proof. split; [exact ref_range_sc_local|exact ref_range_sc_global]. Qed.
+Print Assumptions C10_scope_argument.
+
+(* a unique reference that draws d inside the requested interval names the row a plain
+   reference with draw d names (so C10_nickname_target_exists / C10_table_target_scoped /
+   C10_table_target_exists_partial speak about unique references too); by nickname - in any
+   scope - it is a row saved under that nickname *)
+Theorem C10_unique_target_is_a_plain_target :
+  (forall h name nick table lo hi d,
+     ref_range_sc h name false = Ok (nick, table, lo, hi) -> lo <= d <= hi ->
+     random_ref h name d = resolve_draw h nick table d) /\
+  (forall h name t d tbl i,
+     resolve_draw h (Some name) t d = Ok (tbl, i) ->
+     tbl = t /\ exists r, In r (hrows h) /\ h_table r = t /\ h_nick r = Some name /\ h_nid r = d /\ h_id r = i).
+Proof. split; [exact unique_target_as_plain|exact nick_resolve_sound]. Qed.
+Print Assumptions C10_unique_target_is_a_plain_target.
+
+(* the invariant of the table of call sites: holds initially, kept by every operation of every
+   script (saves, resets, plain references, unique references at any site under any parent) *)
+Theorem C10_call_sites_invariant :
+  SitesInv [] /\
+  (forall m op o m1, SitesInv (m_sites m) -> mstep m op = (o, Some m1) -> SitesInv (m_sites m1)) /\
+  (forall ops m, SitesInv (m_sites m) -> SitesInv (m_sites (snd (mrun m ops)))).
+Proof. split; [exact SitesInv_nil|split; [exact mstep_inv|exact mrun_inv]]. Qed.
+Print Assumptions C10_call_sites_invariant.
+
+(* ONE unique reference, at call site s, under parent row p: the number drawn lies in the
+   interval the row history asks for at that moment (rows of the current iteration when it has
+   some: only values of the new window appear after a move), it was never drawn by this call
+   site under this parent row, it is what the site records, and every other call site's entry
+   is left exactly as it was *)
+Theorem C10_call_site_step :
+  forall h ss orc s p name glob nick table lo hi t i ss' orc',
+    SitesInv ss ->
+    ref_range_sc h name glob = Ok (nick, table, lo, hi) ->
+    mstep_uref h ss orc s p name glob = Ok (t, i, ss', orc') ->
+    exists d st',
+      lo <= d <= hi /\ resolve_draw h nick table d = Ok (t, i) /\
+      ~ In d (s_old (site_get ss s p) ++ s_cur (site_get ss s p)) /\
+      lookupN s ss' = Some st' /\ s_parent st' = p /\
+      s_old st' ++ s_cur st' = (s_old (site_get ss s p) ++ s_cur (site_get ss s p)) ++ [d] /\
+      (forall s', s' <> s -> lookupN s' ss' = lookupN s' ss) /\
+      SitesInv ss'.
+Proof. exact site_step. Qed.
+Print Assumptions C10_call_site_step.
+
+(* a new parent row (or a first use) starts from nothing: the scope of `parent` *)
+Theorem C10_parent_scope_starts_empty :
+  forall ss s p,
+    (forall st, lookupN s ss = Some st -> s_parent st <> p) ->
+    s_old (site_get ss s p) ++ s_cur (site_get ss s p) = [] /\ s_ctx (site_get ss s p) = None.
+Proof.
+  intros ss s p H. unfold site_get. destruct (lookupN s ss) as [st|] eqn:E; [|split; reflexivity].
+  destruct (s_parent st =? p) eqn:E2; [|split; reflexivity].
+  exfalso. apply (H st eq_refl). apply Z.eqb_eq. exact E2.
+Qed.
+Print Assumptions C10_parent_scope_starts_empty.
+
+(* "Cannot find an unused X" at a call site means that THIS call site, under the current parent
+   row, has used every number of the requested interval in its current window: what other call
+   sites aimed at the same target have used is irrelevant, every eligible target can be used *)
+Theorem C10_call_site_refused_only_after_using_everything :
+  forall h ss orc s p name glob nick table lo hi,
+    SitesInv ss ->
+    ref_range_sc h name glob = Ok (nick, table, lo, hi) ->
+    mstep_uref h ss orc s p name glob = Err (DGE "no-unused-target") ->
+    Permutation (s_cur (site_get ss s p)) (Zseq lo (Z.to_nat (hi + 1 - lo))).
+Proof. exact site_refused. Qed.
+Print Assumptions C10_call_site_refused_only_after_using_everything.
+
+(* the outcome at a call site depends on the other call sites' entries in no way *)
+Theorem C10_call_site_outcome_is_local :
+  forall h ss1 ss2 orc s p name glob,
+    site_get ss1 s p = site_get ss2 s p ->
+    match mstep_uref h ss1 orc s p name glob, mstep_uref h ss2 orc s p name glob with
+    | Ok (r1, ss1', o1), Ok (r2, ss2', o2) => r1 = r2 /\ o1 = o2 /\ lookupN s ss1' = lookupN s ss2'
+    | Err e1, Err e2 => e1 = e2
+    | _, _ => False
+    end.
+Proof. exact site_outcome_local. Qed.
+Print Assumptions C10_call_site_outcome_is_local.
+
+(* whole runs: whatever the script (any number of call sites, parents, scopes, targets) and
+   whatever the random draws, no call site has drawn a number twice under its parent row *)
+Theorem C10_call_sites_never_repeat :
+  forall counters names orc ops s st,
+    lookupN s (m_sites (snd (mrun (mkM (rh_init counters names) [] orc) ops))) = Some st ->
+    NoDup (s_old st ++ s_cur st).
+Proof. exact sites_never_repeat. Qed.
+Print Assumptions C10_call_sites_never_repeat.
+
+(* numbers and rows: by table name the row id is the number drawn; by nickname two different
+   numbers never name the same row as long as the history holds no two rows with the same
+   table and id (kept by every save of a fresh id) - so "no number twice" is "no row twice" *)
+Theorem C10_distinct_numbers_are_distinct_rows :
+  (forall counters names, IdsUnique (rh_init counters names)) /\
+  (forall h t n i, IdsUnique h -> (forall r, In r (hrows h) -> h_table r = t -> h_id r <> i) ->
+                   IdsUnique (save_row h t n i)) /\
+  (forall h, IdsUnique h -> IdsUnique (reset_locals h)) /\
+  (forall h n t d1 d2 tbl i, IdsUnique h ->
+     resolve_draw h (Some n) t d1 = Ok (tbl, i) -> resolve_draw h (Some n) t d2 = Ok (tbl, i) -> d1 = d2) /\
+  (forall h t d1 d2 r, resolve_draw h None t d1 = Ok r -> resolve_draw h None t d2 = Ok r -> d1 = d2).
+Proof.
+  split; [exact IdsUnique_init|]. split; [exact IdsUnique_save|]. split; [exact IdsUnique_reset|].
+  split; [exact nick_numbers_name_distinct_rows|].
+  intros h t d1 d2 r H1 H2. cbn [resolve_draw] in H1, H2. congruence.
+Qed.
+Print Assumptions C10_distinct_numbers_are_distinct_rows.
+
+(* non-vacuity: two call sites on the same three targets each get all three; the next
+   iteration moves both to the new rows; a parented site starts afresh under a new parent;
+   a fourth draw in one window is refused *)
+Example C10_sites_ex :
+  fst (mrun (mkM (rh_init [] [("A", "A")]) [] [0; 0; 1; 1; 0; 0; 0; 0; 0; 0; 0; 0])
+    [MSave "A" None 1; MSave "A" None 2; MSave "A" None 3;
+     MURef 1 0 "A" false; MURef 2 0 "A" false; MURef 1 0 "A" false; MURef 2 0 "A" false;
+     MURef 1 0 "A" false; MURef 2 0 "A" false;
+     MReset; MSave "A" None 4;
+     MURef 1 0 "A" false; MURef 2 0 "A" false;
+     MURef 3 7 "A" false; MURef 3 8 "A" false; MURef 3 8 "A" false])
+  = [ONone; ONone; ONone;
+     ORefd "A" 1; ORefd "A" 2; ORefd "A" 2; ORefd "A" 1; ORefd "A" 3; ORefd "A" 3;
+     ONone; ONone;
+     ORefd "A" 4; ORefd "A" 4;
+     ORefd "A" 4; ORefd "A" 4; OErr (DGE "no-unused-target")].
+Proof. vm_compute. reflexivity. Qed.
+
 (* non-vacuity *)
 Example C10_ex :
   run_script (rh_init [] [("A", "A"); ("aa", "A")]) None [(0, 0); (1, 0)]
